@@ -10,6 +10,7 @@ package main
 
 import (
 	"bytes"
+	"encoding/json"
 	"errors"
 	"fmt"
 	"go/ast"
@@ -248,11 +249,28 @@ func supervise(tier, path string) {
 	os.Remove(jpath)
 	cmd := osexec.Command(os.Args[0], os.Args[1:]...)
 	cmd.Env = append(os.Environ(), "C15_CHILD=1", "C15_JOURNAL="+jpath)
+	racePrefix := filepath.Join(path, "race_report")
+	if raceBuild {
+		// race reports go to files and are judged below (known finding KF-C15-2 is tolerated, nothing else)
+		old, _ := filepath.Glob(racePrefix + ".*")
+		for _, f := range old {
+			os.Remove(f)
+		}
+		cmd.Env = append(cmd.Env, "GORACE="+strings.TrimSpace(os.Getenv("GORACE")+" exitcode=0 log_path="+racePrefix))
+	}
 	var buf bytes.Buffer
 	cmd.Stdout, cmd.Stderr = &buf, &buf
 	err := cmd.Run()
 	if err == nil {
 		os.Stdout.Write(buf.Bytes())
+		if raceBuild {
+			known, unknown := judgeRaces(racePrefix)
+			patchStats(path, map[string]interface{}{"race_reports_known_KF-C15-2": known, "race_reports_other": len(unknown)})
+			if len(unknown) > 0 {
+				fmt.Printf("%d data race report(s) other than KF-C15-2:\n%s\n", len(unknown), tailString(strings.Join(unknown, "\n"), 6000))
+				os.Exit(66)
+			}
+		}
 		return
 	}
 	code := 1
@@ -308,6 +326,69 @@ func supervise(tier, path string) {
 		out.Case(op, answers[i], "process-crash", true)
 	}
 	out.Close(map[string]interface{}{"process_crash_output": tailString(buf.String(), 3000)})
+}
+
+// judgeRaces reads the race detector's reports. KNOWN (KF-C15-2): a plain read whose innermost frame is
+// conn.go's (*Conn).executeQuery (the struct copy `*newQry = *qry` for the next-page query) or
+// (*Query).WithContext (`q2 := *q`) — both read the whole Query including refCount — against an atomic add
+// (borrowForExecution / releaseAfterExecution of an execution goroutine of the same query that the
+// speculative path of queryExecutor.executeQuery started and that is still running). Everything else is
+// returned verbatim.
+func judgeRaces(prefix string) (known int, unknown []string) {
+	files, _ := filepath.Glob(prefix + ".*")
+	for _, f := range files {
+		b, err := os.ReadFile(f)
+		if err != nil {
+			continue
+		}
+		for _, rep := range strings.Split(string(b), "==================") {
+			if !strings.Contains(rep, "WARNING: DATA RACE") {
+				continue
+			}
+			// the two accesses: "<Read|Write> at ... by goroutine N:" and "Previous <read|write> at ..."
+			var tops []string
+			lines := strings.Split(rep, "\n")
+			for i, l := range lines {
+				t := strings.TrimSpace(l)
+				if (strings.HasPrefix(t, "Read at ") || strings.HasPrefix(t, "Write at ") || strings.HasPrefix(t, "Previous read at ") ||
+					strings.HasPrefix(t, "Previous write at ")) && i+1 < len(lines) {
+					kind := "write"
+					if strings.HasPrefix(t, "Read at ") || strings.HasPrefix(t, "Previous read at ") {
+						kind = "read"
+					}
+					tops = append(tops, kind+" "+strings.TrimSpace(lines[i+1]))
+				}
+			}
+			isCopy := func(s string) bool {
+				return s == "read github.com/gocql/gocql.(*Conn).executeQuery()" || s == "read github.com/gocql/gocql.(*Query).WithContext()"
+			}
+			isAtomic := func(s string) bool { return strings.HasPrefix(s, "write sync/atomic.Add") }
+			if len(tops) == 2 && (isCopy(tops[0]) && isAtomic(tops[1]) || isCopy(tops[1]) && isAtomic(tops[0])) {
+				known++
+			} else {
+				unknown = append(unknown, rep)
+			}
+		}
+	}
+	return
+}
+
+func patchStats(dir string, extra map[string]interface{}) {
+	p := filepath.Join(dir, "stats.json")
+	b, err := os.ReadFile(p)
+	if err != nil {
+		return
+	}
+	st := map[string]interface{}{}
+	if json.Unmarshal(b, &st) != nil {
+		return
+	}
+	for k, v := range extra {
+		st[k] = v
+	}
+	if nb, err := json.MarshalIndent(st, "", " "); err == nil {
+		os.WriteFile(p, nb, 0o644)
+	}
 }
 
 func tailString(s string, n int) string {
